@@ -955,21 +955,104 @@ def subNamesOk : Elem → Prop
 def ElemGood (types : List Elem) (q : Path) (x : Elem) : Prop :=
   symbolicName x.name = true ∧ subNamesOk x ∧ elemViols types q x = []
 
+theorem offsetMax_u64 : offsetMax = u64Max := rfl
+
+theorem overflowViol_none (q : Path) (sz off : Nat) : overflowViol q (some sz) off = none ↔ off + sz ≤ u64Max := by
+  unfold overflowViol
+  by_cases h : u64Max < off + sz
+  · simp [h]
+  · simp [h]; omega
+
+/-- a member obeys the two offset rules -/
+theorem offsetViol_none (types : List Elem) (p : Path) (e : Elem) (cur sz : Nat)
+    (hsz : Spec.Rules.sizeOf types e = some sz) :
+    offsetViol types p (e, cur) = none ↔
+      (∀ o, elemOffset e = some o → cur ≤ o) ∧ (elemOffset e).getD cur + sz ≤ u64Max := by
+  unfold offsetViol
+  simp only [hsz]
+  cases ho : elemOffset e with
+  | none => simp [overflowViol_none]
+  | some o =>
+    by_cases hlt : o < cur
+    · simp [hlt]; omega
+    · simp [hlt, overflowViol_none]; omega
+
+theorem fieldOffsetViol_none (types : List Elem) (lp : Path) (f : FieldDef) (cur sz : Nat)
+    (hsz : fieldSize types f = some sz) :
+    fieldOffsetViol types lp (f, cur) = none ↔
+      (∀ o, f.offset = some o → cur ≤ o) ∧ f.offset.getD cur + sz ≤ u64Max := by
+  unfold fieldOffsetViol
+  simp only [hsz]
+  cases ho : f.offset with
+  | none => simp [overflowViol_none]
+  | some o =>
+    by_cases hlt : o < cur
+    · simp [hlt]; omega
+    · simp [hlt, overflowViol_none]; omega
+
+theorem vAdvance_err (p : Path) (off sz : Nat) (d : Diag) :
+    vAdvance p off sz = .error d ↔ u64Max < off + sz ∧ d = { cls := .offsetOverflow, loc := p } := by
+  unfold vAdvance
+  rw [offsetMax_u64]
+  by_cases h : u64Max < off + sz
+  · simp [h, fail, eq_comm]
+  · simp [h]
+
+theorem offsetViol_overflow (types : List Elem) (p : Path) (e : Elem) (cur sz : Nat)
+    (hsz : Spec.Rules.sizeOf types e = some sz) (hmin : ∀ o, elemOffset e = some o → cur ≤ o)
+    (hov : u64Max < (elemOffset e).getD cur + sz) :
+    offsetViol types p (e, cur) = some (.offsetOverflow, p ++ [e.name]) := by
+  unfold offsetViol overflowViol
+  simp only [hsz]
+  cases ho : elemOffset e with
+  | none => simp only [ho, Option.getD_none] at hov; simp [hov]
+  | some o =>
+    simp only [ho, Option.getD_some] at hov
+    have := hmin o ho
+    simp [hov, Nat.not_lt.mpr this]
+
+theorem fieldOffsetViol_overflow (types : List Elem) (lp : Path) (f : FieldDef) (cur sz : Nat)
+    (hsz : fieldSize types f = some sz) (hmin : ∀ o, f.offset = some o → cur ≤ o)
+    (hov : u64Max < f.offset.getD cur + sz) :
+    fieldOffsetViol types lp (f, cur) = some (.offsetOverflow, lp ++ [f.name]) := by
+  unfold fieldOffsetViol overflowViol
+  simp only [hsz]
+  cases ho : f.offset with
+  | none => simp only [ho, Option.getD_none] at hov; simp [hov]
+  | some o =>
+    simp only [ho, Option.getD_some] at hov
+    have := hmin o ho
+    simp [hov, Nat.not_lt.mpr this]
+
+theorem le_getD_of_forall {o : Option Nat} {cur : Nat} (h : ∀ x, o = some x → cur ≤ x) : cur ≤ o.getD cur := by
+  cases o with
+  | none => simp
+  | some x => simpa using h x rfl
+
+theorem vAdvance_ok (p : Path) (off sz next : Nat) :
+    vAdvance p off sz = .ok next ↔ off + sz ≤ u64Max ∧ next = off + sz := by
+  unfold vAdvance
+  rw [offsetMax_u64]
+  by_cases h : u64Max < off + sz
+  · simp [h, fail]; omega
+  · simp [h, eq_comm]; omega
+
 theorem vElementOffset_ok (types : List Elem) (p : Path) (e : Elem) (cur sz cur' : Nat) :
     vElementOffset types p e cur sz = .ok cur' ↔
       (if Spec.Rules.isConstElem types e then cur' = cur
-       else (∀ o, elemOffset e = some o → cur ≤ o) ∧ cur' = (elemOffset e).getD cur + sz) := by
+       else (∀ o, elemOffset e = some o → cur ≤ o) ∧ (elemOffset e).getD cur + sz ≤ u64Max ∧
+         cur' = (elemOffset e).getD cur + sz) := by
   unfold vElementOffset
   rw [isConst_eq, offset_eq]
   by_cases hc : Spec.Rules.isConstElem types e = true
   · simp [hc, eq_comm]
   · simp only [hc, Bool.false_eq_true, ↓reduceIte]
     cases ho : elemOffset e with
-    | none => simp [eq_comm]
+    | none => simp [vAdvance_ok]
     | some o =>
       by_cases hlt : o < cur
       · simp [hlt, fail]; omega
-      · simp [hlt, eq_comm]; omega
+      · simp [hlt, vAdvance_ok]; omega
 
 section Good
 variable (hfp : FpAgree) (types : List Elem) (k : Nat) (hk : k ≤ types.length)
@@ -1042,7 +1125,7 @@ mutual
         vElemsWith types (vPublic types k) vis p cur elems = .ok n →
           endWith types (sizeK types k) cur elems = some n ∧
           (∀ q x, (q, x) ∈ subElemsL p elems → ElemGood types q x) ∧
-          (memberMinima types cur elems).filterMap (offsetViol p) = []
+          (memberMinima types cur elems).filterMap (offsetViol types p) = []
     | [], vis, p, cur, n, h => by
       simp only [vElemsWith, Except.ok.injEq] at h
       subst h
@@ -1066,7 +1149,7 @@ mutual
         · exact e2 q x hm
         · exact r2 q x hm
       · simp only [hc, Bool.false_eq_true, ↓reduceIte] at hoff
-        obtain ⟨hle, rfl⟩ := hoff
+        obtain ⟨hle, hfit, rfl⟩ := hoff
         refine ⟨by simp [endWith, hc, e1, r1], ?_, ?_⟩
         · intro q x hm
           simp only [subElemsL, List.mem_append] at hm
@@ -1074,14 +1157,7 @@ mutual
           · exact e2 q x hm
           · exact r2 q x hm
         · simp only [memberMinima, hc, Bool.false_eq_true, ↓reduceIte, hsizeOf, List.filterMap_cons, r3]
-          have : offsetViol p (e, cur) = none := by
-            unfold offsetViol
-            cases ho : elemOffset e with
-            | none => rfl
-            | some o =>
-              have := hle o ho
-              simp only
-              rw [if_neg (by omega)]
+          have : offsetViol types p (e, cur) = none := (offsetViol_none types p e cur sz hsizeOf).mpr ⟨hle, hfit⟩
           simp [this]
 end
 end Good
@@ -1468,7 +1544,7 @@ theorem vLevelHeader_ok (types : List Elem) (user : Path) (hdr : String) (requir
 def SizesAgree (types : List Elem) : Prop :=
   (∀ t ∈ types, ∃ m, vRoot types t = .ok m ∧ Spec.Rules.sizeOf types t = some m) ∧
   (∀ n o elems a, Elem.composite n o elems a ∈ types →
-    (memberMinima types 0 elems).filterMap (offsetViol ["types", n]) = [])
+    (memberMinima types 0 elems).filterMap (offsetViol types ["types", n]) = [])
 
 theorem sizesAgree_of_phase (hfp : FpAgree) (s : SchemaDef) (h : typesPhase s = .ok ()) : SizesAgree s.types := by
   obtain ⟨t1, t2⟩ := typesPhase_good hfp s h
@@ -1553,7 +1629,7 @@ end
     grows, and the member called `name` (not a constant) ends inside the composite -/
 theorem ctxMemberOffset_spec (p : Path) (name : String) : ∀ (elems : List Elem) (cur sz : Nat),
     endWith types (sizeK types types.length) cur elems = some sz →
-    (memberMinima types cur elems).filterMap (offsetViol p) = [] →
+    (memberMinima types cur elems).filterMap (offsetViol types p) = [] →
     cur ≤ sz ∧
     ∀ e, elems.find? (fun x => x.name == name) = some e → Spec.Rules.isConstElem types e = false →
       ∀ s, sizeWith types (sizeK types types.length) e = some s →
@@ -1588,21 +1664,14 @@ theorem ctxMemberOffset_spec (p : Path) (name : String) : ∀ (elems : List Elem
         have hsizeOf : Spec.Rules.sizeOf types x = some sx := by
           unfold Spec.Rules.sizeOf; simpa [sizeK] using hs
         simp only [memberMinima, hc, Bool.false_eq_true, ↓reduceIte, hsizeOf, List.filterMap_cons] at hoff
-        have hov : offsetViol p (x, cur) = none := by
-          cases hx : offsetViol p (x, cur) with
+        have hov : offsetViol types p (x, cur) = none := by
+          cases hx : offsetViol types p (x, cur) with
           | none => rfl
           | some v => simp [hx] at hoff
-        have hrest : (memberMinima types ((elemOffset x).getD cur + sx) rest).filterMap (offsetViol p) = [] := by
+        have hrest : (memberMinima types ((elemOffset x).getD cur + sx) rest).filterMap (offsetViol types p) = [] := by
           simpa [hov] using hoff
-        have hle : cur ≤ (elemOffset x).getD cur := by
-          unfold offsetViol at hov
-          cases ho : elemOffset x with
-          | none => simp
-          | some o =>
-            simp only [ho] at hov
-            by_cases hlt : o < cur
-            · simp [hlt] at hov
-            · simp; omega
+        have hle : cur ≤ (elemOffset x).getD cur :=
+          le_getD_of_forall ((offsetViol_none types p x cur sx hsizeOf).mp hov).1
         obtain ⟨i1, i2⟩ := ih _ sz h hrest
         refine ⟨by omega, ?_⟩
         intro e he hne s hse
@@ -1861,7 +1930,7 @@ theorem vConstantField_ok (hfp : FpAgree) (types : List Elem) (p : Path) (f : Fi
 theorem vFields_ok (hfp : FpAgree) (types : List Elem) (hsz : SizesAgree types) (lp : Path) :
     ∀ (fields : List FieldDef) (cur e : Nat), vFields types lp cur fields = .ok e →
       (∀ f ∈ fields, symbolicName f.name = true ∧ fieldViols types lp f = []) ∧
-      (fieldMinima types cur fields).filterMap (fieldOffsetViol lp) = [] ∧ fieldsEnd types cur fields = some e := by
+      (fieldMinima types cur fields).filterMap (fieldOffsetViol types lp) = [] ∧ fieldsEnd types cur fields = some e := by
   intro fields
   induction fields with
   | nil =>
@@ -1891,27 +1960,34 @@ theorem vFields_ok (hfp : FpAgree) (types : List Elem) (hsz : SizesAgree types) 
       have hfv : fieldViols types lp f = [] := by simp [fieldViols, g1, hc]
       cases ho : f.offset with
       | none =>
-        simp only [ho] at hrest
+        simp only [ho, bind_ok, vAdvance_ok] at hrest
+        obtain ⟨next, ⟨hfit, rfl⟩, hrest⟩ := hrest
         obtain ⟨r1, r2, r3⟩ := ih _ e hrest
         refine ⟨?_, ?_, ?_⟩
         · intro f' hf'
           rcases List.mem_cons.mp hf' with rfl | hf'
           · exact ⟨hname, hfv⟩
           · exact r1 f' hf'
-        · simp [fieldMinima, hc, g3, ho, r2, fieldOffsetViol]
+        · have hv : fieldOffsetViol types lp (f, cur) = none :=
+            (fieldOffsetViol_none types lp f cur sz g3).mpr ⟨by simp [ho], by simpa [ho] using hfit⟩
+          simp [fieldMinima, hc, g3, ho, r2, hv]
         · simp [fieldsEnd, hc, g3, ho, r3]
       | some o =>
         simp only [ho] at hrest
         by_cases hlt : o < cur
         · simp [hlt, fail] at hrest
-        · simp only [hlt, ↓reduceIte] at hrest
+        · simp only [hlt, ↓reduceIte, bind_ok, vAdvance_ok] at hrest
+          obtain ⟨next, ⟨hfit, rfl⟩, hrest⟩ := hrest
           obtain ⟨r1, r2, r3⟩ := ih _ e hrest
           refine ⟨?_, ?_, ?_⟩
           · intro f' hf'
             rcases List.mem_cons.mp hf' with rfl | hf'
             · exact ⟨hname, hfv⟩
             · exact r1 f' hf'
-          · simp [fieldMinima, hc, g3, ho, r2, fieldOffsetViol, hlt]
+          · have hv : fieldOffsetViol types lp (f, cur) = none :=
+              (fieldOffsetViol_none types lp f cur sz g3).mpr
+                ⟨by intro x hx; rw [ho] at hx; cases hx; omega, by simpa [ho] using hfit⟩
+            simp [fieldMinima, hc, g3, ho, r2, hv]
           · simp [fieldsEnd, hc, g3, ho, r3]
 
 
@@ -2050,7 +2126,7 @@ theorem hdrValid_of_valid (types : List Elem) (user : Path) (hdr : String) (requ
 theorem level_good (types : List Elem) (hdr : String) (lp : Path) (bl : Option Nat) (fields : List FieldDef)
     (groups : List GroupDef) (datas : List DataDef) (off : Nat)
     (hf : (∀ f ∈ fields, symbolicName f.name = true ∧ fieldViols types lp f = []) ∧
-      (fieldMinima types 0 fields).filterMap (fieldOffsetViol lp) = [] ∧ fieldsEnd types 0 fields = some off)
+      (fieldMinima types 0 fields).filterMap (fieldOffsetViol types lp) = [] ∧ fieldsEnd types 0 fields = some off)
     (hb : levelValueViols types hdr lp bl fields groups.length datas.length = [])
     (hg : ∀ g ∈ groups, symbolicName (gName g) = true ∧
       headerViols types (lp ++ [gName g]) (gDim g) ["numInGroup", "blockLength"] false = [])
@@ -2777,7 +2853,7 @@ theorem vName_walk (c : DiagClass) (hc : WalkCls c) (n : String) (p : Path) : No
 
 theorem vElementOffset_walk (c : DiagClass) (hc : WalkCls c) (types : List Elem) (p : Path) (e : Elem) (cur sz : Nat) :
     NotCls c (vElementOffset types p e cur sz) := by
-  rcases hc with rfl | rfl <;> (unfold vElementOffset; notcls)
+  rcases hc with rfl | rfl <;> (unfold vElementOffset vAdvance; notcls)
 
 theorem uniq_by_name (types : List Elem) (hnd : (lowerNames types).Nodup) (a b : Elem) (ha : a ∈ types) (hb : b ∈ types)
     (h : a.name = b.name) : a = b := by
@@ -2982,7 +3058,7 @@ mutual
         subst hoff
         simp [endWith, hc, r1]
       · simp only [hc, Bool.false_eq_true, ↓reduceIte] at hoff
-        obtain ⟨_, rfl⟩ := hoff
+        obtain ⟨_, _, rfl⟩ := hoff
         simp [endWith, hc, e1, r1]
 end
 end SizeOnly
@@ -3263,7 +3339,7 @@ mutual
   theorem vElemsWith_complete : ∀ (elems : List Elem) (vis : List String) (p : Path) (kf cur : Nat),
       unfoldsWithL types (unfoldsK types j) elems = true → Hvis types j vis →
       (∀ q x, (q, x) ∈ subElemsL p elems → ElemGood types q x) →
-      (memberMinima types cur elems).filterMap (offsetViol p) = [] →
+      (memberMinima types cur elems).filterMap (offsetViol types p) = [] →
       FuelInv types (kf + 1) vis → kf ≤ types.length →
       ∃ n, vElemsWith types (vPublic types kf) vis p cur elems = .ok n
     | [], vis, p, kf, cur, _, _, _, _, _, _ => ⟨cur, by simp [vElemsWith]⟩
@@ -3283,11 +3359,11 @@ mutual
         simp only [vElemsWith, bind_ok]
         exact ⟨sz, hsz, cur, (vElementOffset_ok types _ e cur sz cur).mpr (by simp [hc]), hn⟩
       · simp only [memberMinima, hc, Bool.false_eq_true, ↓reduceIte, hsizeOf, List.filterMap_cons] at hoff
-        have hov : offsetViol p (e, cur) = none := by
-          cases hx : offsetViol p (e, cur) with
+        have hov : offsetViol types p (e, cur) = none := by
+          cases hx : offsetViol types p (e, cur) with
           | none => rfl
           | some v => simp [hx] at hoff
-        have hrest : (memberMinima types ((elemOffset e).getD cur + sz) rest).filterMap (offsetViol p) = [] := by
+        have hrest : (memberMinima types ((elemOffset e).getD cur + sz) rest).filterMap (offsetViol types p) = [] := by
           simpa [hov] using hoff
         obtain ⟨n, hn⟩ := vElemsWith_complete rest vis p kf _ hu.2 hv
           (fun q x hm => hg q x (by simp [subElemsL, hm])) hrest hfu hkf
@@ -3295,12 +3371,7 @@ mutual
         simp only [vElemsWith, bind_ok]
         refine ⟨sz, hsz, _, (vElementOffset_ok types _ e cur sz _).mpr ?_, hn⟩
         simp only [hc, Bool.false_eq_true, ↓reduceIte, and_true]
-        intro o ho
-        unfold offsetViol at hov
-        simp only [ho] at hov
-        by_cases hlt : o < cur
-        · simp [hlt] at hov
-        · omega
+        exact (offsetViol_none types p e cur sz hsizeOf).mp hov
 end
 end Complete
 
